@@ -53,6 +53,29 @@ LAYOUTS = {
 # environment
 # ------------------------------------------------------------------------------
 
+# Module-level mutable state of the modules under test (a memo dict, an lru_cache a refactoring may add): every
+# path must start from the state of a freshly started process, otherwise values (and proxies) of one path leak
+# into the next one and re-execution is no longer deterministic.  Pristine copies are taken at import time.
+_MODULES = (SM, SU, MD, QM)
+_PRISTINE = {}
+for _m in _MODULES:
+    for _n, _v in list(_m.__dict__.items()):
+        if not _n.startswith('__') and type(_v) in (dict, list, set):
+            _PRISTINE[(_m.__name__, _n)] = (_v, type(_v)(_v))
+
+
+def reset_module_state():
+    for obj, snap in _PRISTINE.values():
+        obj.clear()                 # no comparison with the old content: it may hold proxies of the previous path
+        (obj.update if type(obj) in (dict, set) else obj.extend)(snap)
+    for m in _MODULES:
+        for n, v in list(m.__dict__.items()):
+            if type(v) in (dict, list, set) and not n.startswith('__') and (m.__name__, n) not in _PRISTINE:
+                v.clear()           # a container created after import (by a function of the module)
+            elif callable(getattr(v, 'cache_clear', None)) and getattr(v, '__module__', None) == m.__name__:
+                v.cache_clear()
+
+
 class _PathShim(sstr.PathShim):
     """os.path of engine/sstr.py plus commonpath on the (concrete) directory paths"""
 
@@ -78,6 +101,7 @@ class Env:
         mod.__dict__[name] = value
 
     def __enter__(self):
+        reset_module_state()
         if self.c.symbolic:
             import os as real_os
             shim_re = reshim.ReShim()
